@@ -32,6 +32,10 @@ def replay_trace(EoReader, data, calls):
     readers = [EoReader(bytes(data))]
     obs = []
     for c in calls:
+        if c["r"] - 1 >= len(readers):
+            # the slice that should have produced this reader raised (already recorded as such): nothing to call
+            obs.append({"ret": 0, "exc": "MissingReader", "proj": _proj(readers)})
+            continue
         r = readers[c["r"] - 1]
         if c["op"] == "slice":
             try:
